@@ -332,3 +332,18 @@ def poke(obj, key=""):
         except Exception:  # noqa
             pass
     return obj
+
+
+def poke_wcs(w, key=""):
+    """Read every APE-14 attribute of a (low-level) WCS before it is used, in every second case (by key)."""
+    import zlib
+    if zlib.crc32(("pokew" + str(key)).encode()) % 2:
+        return w
+    for name in ("pixel_n_dim", "world_n_dim", "array_shape", "pixel_shape", "pixel_bounds", "axis_correlation_matrix",
+                 "world_axis_physical_types", "world_axis_units", "world_axis_names", "pixel_axis_names",
+                 "world_axis_object_components", "world_axis_object_classes", "serialized_classes"):
+        try:
+            getattr(w, name)
+        except Exception:  # noqa
+            pass
+    return w
